@@ -1,8 +1,11 @@
-(* C04 — proofs about the hash-join probe / drain barrier model (model/BarrierHashJoin.v). *)
+(* C04 — proofs about the hash-join barrier model (model/BarrierHashJoin.v): build side (collect /
+   init directory / insert hashes) and probe side (scan / finalize / drain / abandon), arbitrary
+   numbers of build and probe partitions, any arrival order. *)
 From Coq Require Import List Arith Lia Bool.
 From GV Require Import lib.Lts model.BarrierHashJoin.
 Import ListNotations.
 
+(* ---- wake functions and counters ---- *)
 Lemma cwp_pscan l : count is_hpscan (map wake_probers l) = 0.
 Proof. rewrite count_map, (count_ext _ (fun _ => false)); [apply count_false|]. intros []; reflexivity. Qed.
 Lemma cwp_probe l : count is_hprobe (map wake_probers l) = count is_hprobe l + count is_hpscan l.
@@ -23,6 +26,16 @@ Proof.
 Qed.
 Lemma cwd_other f l : (forall p, f (wake_drainers p) = f p) -> count f (map wake_drainers l) = count f l.
 Proof. intros H. rewrite count_map. apply count_ext. exact H. Qed.
+Lemma cwi_parked l : count is_bparked (map wake_ins l) = 0.
+Proof. rewrite count_map, (count_ext _ (fun _ => false)); [apply count_false|]. intros [| | | | | |]; reflexivity. Qed.
+Lemma cwi_ins l : count is_bins (map wake_ins l) = count is_bins l + count is_bparked l.
+Proof.
+  rewrite count_map, (count_ext _ (fun p => is_bins p || is_bparked p)).
+  - apply count_orb. intros [| | | | | |]; reflexivity.
+  - intros [| | | | | |]; reflexivity.
+Qed.
+Lemma cwi_other f l : (forall p, f (wake_ins p) = f p) -> count f (map wake_ins l) = count f l.
+Proof. intros H. rewrite count_map. apply count_ext. exact H. Qed.
 
 Lemma hlength_parts l :
   length l = count is_hprobe l + count is_hpscan l + count is_hscan l + count is_hchk l + count is_hpdrain l
@@ -31,6 +44,20 @@ Lemma hlength_parts l :
 Proof.
   induction l as [|a l IH]; [reflexivity|]. rewrite !count_cons. cbn [length].
   destruct a; cbn [b2n is_hprobe is_hpscan is_hscan is_hchk is_hpdrain is_hdraining is_hdone is_habing is_haband is_hlost is_herr]; lia.
+Qed.
+
+Lemma blength_parts l :
+  length l = count is_bcoll l + count is_bmid l + count is_bparked l + count is_bins l + count is_bproc l
+             + count is_bdone l + count is_berr l.
+Proof.
+  induction l as [|a l IH]; [reflexivity|]. rewrite !count_cons. cbn [length].
+  destruct a; cbn [b2n is_bcoll is_bmid is_bparked is_bins is_bproc is_bdone is_berr]; lia.
+Qed.
+
+Lemma midlast_le_mid l : count is_bmidlast l <= count is_bmid l.
+Proof.
+  induction l as [|a l IH]; [reflexivity|]. rewrite !count_cons.
+  destruct a as [|[|]| | | | |]; cbn [b2n is_bmid is_bmidlast]; lia.
 Qed.
 
 Ltac hfacts H q :=
@@ -45,29 +72,58 @@ Ltac hfacts H q :=
   pose proof (count_nth_ge is_hpdrain _ _ _ H); pose proof (count_nth_ge is_hdraining _ _ _ H);
   pose proof (length_upd _ _ _ q H).
 
+Ltac bfacts H q :=
+  pose proof (count_upd is_bcoll _ _ _ q H); pose proof (count_upd is_bmid _ _ _ q H);
+  pose proof (count_upd is_bmidlast _ _ _ q H); pose proof (count_upd is_bparked _ _ _ q H);
+  pose proof (count_upd is_bins _ _ _ q H); pose proof (count_upd is_bproc _ _ _ q H);
+  pose proof (count_upd is_bdone _ _ _ q H); pose proof (count_upd is_berr _ _ _ q H);
+  pose proof (count_nth_ge is_bcoll _ _ _ H); pose proof (count_nth_ge is_bmid _ _ _ H);
+  pose proof (count_nth_ge is_bmidlast _ _ _ H); pose proof (count_nth_ge is_bparked _ _ _ H);
+  pose proof (count_nth_ge is_bins _ _ _ H); pose proof (count_nth_ge is_bproc _ _ _ H);
+  pose proof (length_upd _ _ _ q H).
+
 Ltac hwake_rw :=
   rewrite ?cwd_pdrain, ?cwd_chk, ?(cwd_other is_hprobe), ?(cwd_other is_hpscan), ?(cwd_other is_hscan),
-    ?(cwd_other is_hdraining), ?(cwd_other is_hdone), ?(cwd_other is_haband), ?(cwd_other is_herr), ?(cwd_other is_habing), ?(cwd_other is_hlost),
+    ?(cwd_other is_hdraining), ?(cwd_other is_hdone), ?(cwd_other is_haband), ?(cwd_other is_herr),
+    ?(cwd_other is_habing), ?(cwd_other is_hlost),
     ?cwp_pscan, ?cwp_probe, ?(cwp_other is_hscan), ?(cwp_other is_hchk), ?(cwp_other is_hpdrain),
     ?(cwp_other is_hdraining), ?(cwp_other is_hdone), ?(cwp_other is_haband), ?(cwp_other is_herr),
     ?(cwp_other is_habing), ?(cwp_other is_hlost),
-    ?map_length in * by (intros []; reflexivity).
+    ?cwi_parked, ?cwi_ins, ?(cwi_other is_bcoll), ?(cwi_other is_bmid), ?(cwi_other is_bmidlast),
+    ?(cwi_other is_bproc), ?(cwi_other is_bdone), ?(cwi_other is_berr),
+    ?map_length in * by (first [intros [] | intros [| | | | | |]]; reflexivity).
 
 Ltac hred :=
   cbn [b2n is_hprobe is_hpscan is_hscan is_hchk is_hpdrain is_hdraining is_hdone is_habing is_haband is_hlost is_herr
-       hps sready dready rem_prob wake_probers wake_drainers andb] in *.
+       is_bcoll is_bmid is_bmidlast is_bparked is_bins is_bproc is_bdone is_berr
+       bps bremaining hready rem_ins hps sready dready rem_prob wake_probers wake_drainers wake_ins andb] in *.
 
 Definition sr_n (s : hst) : nat := if sready s then 1 else 0.
 Definition dr_n (s : hst) : nat := if dready s then 1 else 0.
+Definition hr_n (s : hst) : nat := if hready s then 1 else 0.
 
 Record HInv (s : hst) : Prop := {
+  (* build side *)
+  bA : bremaining s = count is_bcoll (bps s);
+  bB1 : count is_bmidlast (bps s) <= 1;
+  bB2 : count is_bmidlast (bps s) = 1 -> count is_bcoll (bps s) = 0;
+  bC : hr_n s = 1 -> count is_bcoll (bps s) + count is_bmidlast (bps s) + count is_bparked (bps s) = 0;
+  bD1 : hr_n s = 0 -> count is_bins (bps s) + count is_bproc (bps s) + count is_bdone (bps s) = 0;
+  bD2 : hr_n s = 0 -> 0 < count is_bcoll (bps s) + count is_bmid (bps s) + count is_bparked (bps s) ->
+        1 <= count is_bcoll (bps s) + count is_bmidlast (bps s);
+  bE : rem_ins s = count is_bcoll (bps s) + count is_bmid (bps s) + count is_bparked (bps s)
+                   + count is_bins (bps s) + count is_bproc (bps s);
+  bF : count is_berr (bps s) = 0;
+  sS1 : sr_n s = 1 -> rem_ins s = 0;
+  sS0 : sr_n s = 0 -> rem_ins s = 0 -> count is_bdone (bps s) = 0;
+  (* probe side *)
   hR : rem_prob s = count is_hprobe (hps s) + count is_hpscan (hps s) + count is_hscan (hps s)
                     + count is_habing (hps s);
-  hS0 : sr_n s = 0 -> count is_hscan (hps s) + count is_hchk (hps s) + count is_hpdrain (hps s)
-                      + count is_hdraining (hps s) + count is_hdone (hps s)
+  hS0 : sr_n s = 0 -> count is_hscan (hps s) + count is_hdraining (hps s) + count is_hdone (hps s)
                       + count is_habing (hps s) + count is_haband (hps s) = 0;
   hS1 : sr_n s = 1 -> count is_hpscan (hps s) = 0;
-  hD0 : dr_n s = 1 -> rem_prob s = 0 /\ count is_hpdrain (hps s) = 0;
+  hD0 : dr_n s = 1 -> rem_prob s = 0;
+  hD0b : dr_n s = 1 -> sr_n s = 1 -> count is_hpdrain (hps s) = 0;
   hD1 : dr_n s = 0 -> rem_prob s = 0 ->
         count is_hchk (hps s) + count is_hpdrain (hps s) + count is_hdraining (hps s) + count is_hdone (hps s)
         + count is_haband (hps s) = 0;
@@ -76,190 +132,89 @@ Record HInv (s : hst) : Prop := {
   hL : count is_hlost (hps s) = 0
 }.
 
-Ltac hviews := unfold sr_n, dr_n in *; hred.
+Ltac hviews := unfold sr_n, dr_n, hr_n in *; hred.
+Ltac fin := constructor; hviews; hwake_rw; intros; lia.
+Ltac split_flags s := destruct s as [bp br hr ri ps sr dr rm]; hviews.
 
-Lemma hinv_init n : HInv (hinit n).
+Lemma hinv_init nb n : HInv (hinit nb n).
 Proof.
   unfold hinit. constructor; hviews; rewrite ?count_repeat; hred; intros; lia.
 Qed.
 
-Lemma hinv_step ab s s' : HInv s -> hstep ab false s s' -> HInv s'.
+Lemma hinv_step ab s s' : HInv s -> hstep ab false true s s' -> HInv s'.
 Proof.
-  intros [R S0 S1 D0 D1 D2 E L] Hs.
-  destruct Hs as [s Hsr | i p s H Hp Hsr | i p s H Hp Hsr | i s H Hr | i s H Hr | i s H Hr
+  intros [A B1 B2 C D1' D2' E' F' SS1 SS0 R S0 S1 D0 D0b D1 D2 E L] Hs.
+  pose proof (midlast_le_mid (bps s)) as MLM.
+  destruct Hs as [i s H Hr | i s H Hr | i s H | i s H Hr | i s H Hr | i p s H Hp Hr | i p s H Hp Hr
+                 | i s H Hr | i s H Hr | i s H Hr
+                 | i p s H Hp Hsr | i p s H Hp Hsr | i p s H Hp Hr | i p s H Hp Hr | i p s H Hp Hr
                  | i p s H Hp Hd | i p s H Hp Hd | i s H | i s Hab H | i s Hab H
                  | i s H Hr | i s H Hr | i s H Hr | i s Hab H | i s Hl H]; try discriminate.
-  - (* build_done *)
-    destruct s as [ps sr dr rm]; hviews; subst sr; destruct dr;
-      constructor; hviews; hwake_rw; intros; lia.
+  - (* fetch_sub *)
+    destruct (Nat.eqb_spec (bremaining s) 1) as [E1|E1].
+    + bfacts H (BMid true). split_flags s. destruct hr, sr, dr; fin.
+    + bfacts H (BMid false). split_flags s. destruct hr, sr, dr; fin.
+  - (* fetch underflow *)
+    bfacts H BErr. hviews. exfalso. lia.
+  - (* last_lock *)
+    pose proof (map_nth_error wake_ins _ _ H) as H'. hred. bfacts H' BIns. hwake_rw. bfacts H (BMid true).
+    split_flags s. destruct hr, sr, dr; fin.
+  - (* nonlast_ready *)
+    bfacts H BIns. split_flags s. subst hr. destruct sr, dr; fin.
+  - (* nonlast_park *)
+    bfacts H BParked. split_flags s. subst hr. destruct sr, dr; fin.
+  - (* ins_ready *)
+    destruct p; try discriminate; bfacts H BProc; split_flags s; subst hr; destruct sr, dr; fin.
+  - (* ins_park *)
+    destruct p; try discriminate; bfacts H BParked; split_flags s; subst hr; destruct sr, dr; fin.
+  - (* proc_done_last *)
+    bfacts H BDone. split_flags s. subst ri. destruct hr, sr, dr; fin.
+  - (* proc_done *)
+    bfacts H BDone. split_flags s. destruct hr, sr, dr; fin.
+  - (* proc_err *)
+    bfacts H BErr. hviews. exfalso. lia.
   - (* scan_ready *)
-    destruct p; try discriminate; hfacts H HScan;
-      destruct s as [ps sr dr rm]; hviews; subst sr; destruct dr; constructor; hviews; intros; lia.
+    destruct p; try discriminate; hfacts H HScan; split_flags s; subst sr; destruct hr, dr; fin.
   - (* scan_park *)
-    destruct p; try discriminate; hfacts H HParkedScan;
-      destruct s as [ps sr dr rm]; hviews; subst sr; destruct dr; constructor; hviews; intros; lia.
+    destruct p; try discriminate; hfacts H HParkedScan; split_flags s; subst sr; destruct hr, dr; fin.
   - (* finalize_last *)
-    pose proof (map_nth_error wake_drainers _ _ H) as H'. hred. hfacts H' HDrainChk. hwake_rw. hfacts H HScan.
-    destruct s as [ps sr dr rm]; hviews; subst rm; destruct sr, dr; constructor; hviews; hwake_rw; intros; lia.
+    pose proof (map_nth_error wake_drainers _ _ H) as H'.
+    destruct p; try discriminate; hred; hfacts H' HDrainChk; hwake_rw;
+      [hfacts H HProbe | hfacts H HScan]; split_flags s; subst rm; destruct hr, sr, dr; fin.
   - (* finalize *)
-    hfacts H HDrainChk. destruct s as [ps sr dr rm]; hviews; destruct sr, dr; constructor; hviews; intros; lia.
+    destruct p; try discriminate; hfacts H HDrainChk; split_flags s; destruct hr, sr, dr; fin.
   - (* finalize_err *)
-    hfacts H HErr. hviews. exfalso. lia.
+    destruct p; try discriminate; hfacts H HErr; hviews; exfalso; lia.
   - (* drain_ready *)
     destruct p; try discriminate; hfacts H HDraining;
-      destruct s as [ps sr dr rm]; hviews; destruct sr, dr; try discriminate; constructor; hviews; intros; lia.
+      split_flags s; destruct hr, sr, dr; try discriminate; fin.
   - (* drain_park *)
     destruct p; try discriminate; hfacts H HParkedDrain;
-      destruct s as [ps sr dr rm]; hviews; destruct sr, dr; try discriminate; constructor; hviews; intros; lia.
+      split_flags s; destruct hr, sr, dr; try discriminate; fin.
   - (* drain_done *)
-    hfacts H HDone. destruct s as [ps sr dr rm]; hviews; destruct sr, dr; constructor; hviews; intros; lia.
+    hfacts H HDone. split_flags s. destruct hr, sr, dr; fin.
   - (* abandon while probing *)
-    hfacts H HAbandoning. destruct s as [ps sr dr rm]; hviews; destruct sr, dr; constructor; hviews; intros; lia.
+    hfacts H HAbandoning. split_flags s. destruct hr, sr, dr; fin.
   - (* abandon while draining *)
-    hfacts H HDone. destruct s as [ps sr dr rm]; hviews; destruct sr, dr; constructor; hviews; intros; lia.
+    hfacts H HDone. split_flags s. destruct hr, sr, dr; fin.
   - (* abandon_fin_last *)
     pose proof (map_nth_error wake_drainers _ _ H) as H'. hred. hfacts H' HAbandoned. hwake_rw. hfacts H HAbandoning.
-    destruct s as [ps sr dr rm]; hviews; subst rm; destruct sr, dr; constructor; hviews; hwake_rw; intros; lia.
+    split_flags s. subst rm. destruct hr, sr, dr; fin.
   - (* abandon_fin *)
-    hfacts H HAbandoned. destruct s as [ps sr dr rm]; hviews; destruct sr, dr; constructor; hviews; intros; lia.
+    hfacts H HAbandoned. split_flags s. destruct hr, sr, dr; fin.
   - (* abandon_fin_err *)
     hfacts H HErr. hviews. exfalso. lia.
-  - (* abandon_again: nested exhaustion re-creates the instruction *)
-    hfacts H HAbandoning. destruct s as [ps sr dr rm]; hviews; destruct sr, dr; constructor; hviews; intros; lia.
+  - (* abandon_again *)
+    hfacts H HAbandoning. split_flags s. destruct hr, sr, dr; fin.
 Qed.
 
-Theorem hinv_reach ab n s : hreach ab false n s -> HInv s.
+Theorem hinv_reach ab nb n s : hreach ab false true nb n s -> HInv s.
 Proof. induction 1; [apply hinv_init | eapply hinv_step; eassumption]. Qed.
 
-(* ---------- theorems: with or without a LIMIT above the join, as long as no abandon is lost ---------- *)
-
-Theorem hj_inv_parked_implies_flag_unset ab n s :
-  hreach ab false n s ->
-  (0 < count is_hpscan (hps s) -> sready s = false) /\
-  (0 < count is_hpdrain (hps s) -> dready s = false).
+Lemma blength_reach ab lose wd nb n s : hreach ab lose wd nb n s -> length (bps s) = nb.
 Proof.
-  intros Hr. destruct (hinv_reach _ _ _ Hr) as [R S0 S1 D0 D1 D2 E L]. unfold sr_n, dr_n in *. split; intros H.
-  - destruct (sready s); [|reflexivity]. specialize (S1 eq_refl). lia.
-  - destruct (dready s); [|reflexivity]. specialize (D0 eq_refl). lia.
+  induction 1 as [|s s' R IH Hs]; [unfold hinit; cbn [bps]; apply repeat_length|].
+  destruct Hs; cbn [bps]; try exact IH; rewrite <- IH;
+    try (erewrite length_upd; [reflexivity|eassumption]);
+    (erewrite length_upd; [apply map_length | apply map_nth_error; eassumption]).
 Qed.
-
-Theorem hj_no_error_path ab n s : hreach ab false n s -> count is_herr (hps s) = 0.
-Proof. intros Hr. apply (hE _ (hinv_reach _ _ _ Hr)). Qed.
-
-(* no deadlock for arbitrary N, with (ab = true) or without (ab = false) early exhaustion by a
-   downstream LIMIT, given the stack delivers the AbandonOperator finalize *)
-Theorem hj_no_deadlock_with_limit ab n s :
-  hreach ab false n s -> ~ hall_done s -> exists s', hstep ab false s s' /\ s' <> s.
-Proof.
-  intros Hr ND. destruct (hinv_reach _ _ _ Hr) as [R S0 S1 D0 D1 D2 E L].
-  unfold hall_done in ND. pose proof (hlength_parts (hps s)) as LP. unfold sr_n, dr_n in *.
-  destruct (sready s) eqn:Hsr.
-  2:{ eexists. split; [apply h_build_done; assumption|].
-      intros X. apply (f_equal sready) in X. cbn [sready] in X. congruence. }
-  specialize (S1 eq_refl).
-  destruct (Nat.eq_dec (count is_hprobe (hps s)) 0) as [Z1|N1].
-  2:{ destruct (count_pos_nth is_hprobe (hps s)) as (i & p & Hi & Hp); [lia|]. destruct p; try discriminate.
-      eexists. split; [eapply h_scan_ready; [eassumption|reflexivity|assumption]|].
-      intros X. apply (f_equal hps) in X. cbn [hps] in X. eapply upd_neq in X; [assumption|eassumption|discriminate]. }
-  destruct (Nat.eq_dec (count is_hscan (hps s)) 0) as [Z2|N2].
-  2:{ destruct (count_pos_nth is_hscan (hps s)) as (i & p & Hi & Hp); [lia|]. destruct p; try discriminate.
-      destruct (Nat.eq_dec (rem_prob s) 1) as [R1|R1].
-      - eexists. split; [eapply h_finalize_last; eassumption|].
-        intros X. apply (f_equal rem_prob) in X. cbn [rem_prob] in X. lia.
-      - eexists. split; [eapply h_finalize; [eassumption|lia]|].
-        intros X. apply (f_equal rem_prob) in X. cbn [rem_prob] in X. lia. }
-  destruct (Nat.eq_dec (count is_habing (hps s)) 0) as [Z2b|N2b].
-  2:{ destruct (count_pos_nth is_habing (hps s)) as (i & p & Hi & Hp); [lia|]. destruct p; try discriminate.
-      destruct (Nat.eq_dec (rem_prob s) 1) as [R1|R1].
-      - eexists. split; [eapply h_abandon_fin_last; eassumption|].
-        intros X. apply (f_equal rem_prob) in X. cbn [rem_prob] in X. lia.
-      - eexists. split; [eapply h_abandon_fin; [eassumption|lia]|].
-        intros X. apply (f_equal rem_prob) in X. cbn [rem_prob] in X. lia. }
-  destruct (Nat.eq_dec (count is_hchk (hps s)) 0) as [Z3|N3].
-  2:{ destruct (count_pos_nth is_hchk (hps s)) as (i & p & Hi & Hp); [lia|]. destruct p; try discriminate.
-      destruct (dready s && sready s) eqn:Hd.
-      - eexists. split; [eapply h_drain_ready; [eassumption|reflexivity|assumption]|].
-        intros X. apply (f_equal hps) in X. cbn [hps] in X. eapply upd_neq in X; [assumption|eassumption|discriminate].
-      - eexists. split; [eapply h_drain_park; [eassumption|reflexivity|assumption]|].
-        intros X. apply (f_equal hps) in X. cbn [hps] in X. eapply upd_neq in X; [assumption|eassumption|discriminate]. }
-  destruct (Nat.eq_dec (count is_hdraining (hps s)) 0) as [Z4|N4].
-  2:{ destruct (count_pos_nth is_hdraining (hps s)) as (i & p & Hi & Hp); [lia|]. destruct p; try discriminate.
-      eexists. split; [eapply h_drain_done; eassumption|].
-      intros X. apply (f_equal hps) in X. cbn [hps] in X. eapply upd_neq in X; [assumption|eassumption|discriminate]. }
-  (* only partitions parked for the drain are left: every prober finalized (normally or by abandon),
-     so drain_ready is set *)
-  exfalso. destruct (dready s); [specialize (D0 eq_refl); lia|]. specialize (D1 eq_refl). lia.
-Qed.
-
-(* nested exhaustion (rule h_abandon_again is part of hstep): same theorem, named for the report *)
-Theorem hj_no_deadlock_nested_limit n s :
-  hreach true false n s -> ~ hall_done s -> exists s', hstep true false s s' /\ s' <> s.
-Proof. apply hj_no_deadlock_with_limit. Qed.
-
-Theorem hj_no_deadlock n s :
-  hreach false false n s -> ~ hall_done s -> exists s', hstep false false s s' /\ s' <> s.
-Proof. apply hj_no_deadlock_with_limit. Qed.
-
-(* ---------- PREVIOUS stack versions (lose = true): a lost abandon deadlocks the drain barrier.
-   Before 131551599: any LIMIT above the join; before c83fc4e4d: two exhausting operators. ---------- *)
-
-Definition hj_deadlock_state : hst :=
-  {| hps := [HLost; HParkedDrain]; sready := true; dready := false; rem_prob := 1 |}.
-
-(* Two partitions.  Partition 0's pipeline is exhausted by a downstream LIMIT while it probes and its
-   poll_finalize_execute is never called, so remaining_probers stays 1; partition 1 finishes its
-   input, finalizes, and waits for drain_ready for ever: no step of any partition changes the
-   state, on every schedule. *)
-Theorem hj_drain_deadlock_when_abandon_lost_refuted :
-  hreach true true 2 hj_deadlock_state /\ ~ hall_done hj_deadlock_state /\
-  forall s', hstep true true hj_deadlock_state s' -> s' = hj_deadlock_state.
-Proof.
-  split; [|split].
-  - assert (E : hj_deadlock_state =
-      {| hps := upd [HLost; HDrainChk] 1 HParkedDrain; sready := true; dready := false; rem_prob := 1 |}) by reflexivity.
-    rewrite E.
-    eapply hr_step; [|apply (h_drain_park true true 1 HDrainChk
-        {| hps := [HLost; HDrainChk]; sready := true; dready := false; rem_prob := 1 |}); reflexivity].
-    eapply hr_step; [|apply (h_finalize true true 1
-        {| hps := [HLost; HScan]; sready := true; dready := false; rem_prob := 2 |}); [reflexivity | cbn; lia]].
-    eapply hr_step; [|apply (h_abandon_lost true true 0
-        {| hps := [HAbandoning; HScan]; sready := true; dready := false; rem_prob := 2 |}); reflexivity].
-    eapply hr_step; [|apply (h_abandon true true 0
-        {| hps := [HScan; HScan]; sready := true; dready := false; rem_prob := 2 |}); reflexivity].
-    eapply hr_step; [|apply (h_scan_ready true true 1 HProbe
-        {| hps := [HScan; HProbe]; sready := true; dready := false; rem_prob := 2 |}); reflexivity].
-    eapply hr_step; [|apply (h_scan_ready true true 0 HProbe
-        {| hps := [HProbe; HProbe]; sready := true; dready := false; rem_prob := 2 |}); reflexivity].
-    eapply hr_step; [|apply (h_build_done true true (hinit 2)); reflexivity].
-    apply hr_init.
-  - unfold hall_done, hj_deadlock_state. cbn. lia.
-  - intros s' Hs. unfold hj_deadlock_state in *.
-    inversion Hs as [s Hsr | i p s H Hp Hsr | i p s H Hp Hsr | i s H Hr | i s H Hr | i s H Hr
-                    | i p s H Hp Hd | i p s H Hp Hd | i s H | i s Hab H | i s Hab H
-                    | i s H Hr | i s H Hr | i s H Hr | i s Hab H | i s Hl H]; subst; cbn in *;
-      try discriminate;
-      try (destruct i as [|[|i]]; cbn in *; try discriminate; inversion H; subst; cbn in *; try discriminate; reflexivity);
-      try (destruct i as [|[|[|i]]]; cbn in *; discriminate).
-    all: destruct i as [|[|i]]; cbn [nth_error] in H; try (destruct i; discriminate);
-      injection H as <-; cbn in Hp; try discriminate; try reflexivity.
-Qed.
-
-(* the repaired path: the abandoned partition's finalize releases the partition parked for the drain *)
-Example hj_run_example : exists s, hreach true false 2 s /\ hall_done s.
-Proof.
-  exists {| hps := [HAbandoned; HDone]; sready := true; dready := true; rem_prob := 0 |}. split; [|reflexivity].
-  eapply hr_step; [|apply (h_drain_done true false 1 {| hps := [HAbandoned; HDraining]; sready := true; dready := true; rem_prob := 0 |}); reflexivity].
-  eapply hr_step; [|apply (h_drain_ready true false 1 HDrainChk {| hps := [HAbandoned; HDrainChk]; sready := true; dready := true; rem_prob := 0 |}); reflexivity].
-  eapply hr_step; [|apply (h_abandon_fin_last true false 0 {| hps := [HAbandoning; HParkedDrain]; sready := true; dready := false; rem_prob := 1 |}); reflexivity].
-  eapply hr_step; [|apply (h_drain_park true false 1 HDrainChk {| hps := [HAbandoning; HDrainChk]; sready := true; dready := false; rem_prob := 1 |}); reflexivity].
-  eapply hr_step; [|apply (h_finalize true false 1 {| hps := [HAbandoning; HScan]; sready := true; dready := false; rem_prob := 2 |}); [reflexivity | cbn; lia]].
-  eapply hr_step; [|apply (h_abandon true false 0 {| hps := [HScan; HScan]; sready := true; dready := false; rem_prob := 2 |}); reflexivity].
-  eapply hr_step; [|apply (h_scan_ready true false 1 HProbe {| hps := [HScan; HProbe]; sready := true; dready := false; rem_prob := 2 |}); reflexivity].
-  eapply hr_step; [|apply (h_scan_ready true false 0 HProbe {| hps := [HProbe; HProbe]; sready := true; dready := false; rem_prob := 2 |}); reflexivity].
-  eapply hr_step; [|apply (h_build_done true false (hinit 2)); reflexivity].
-  apply hr_init.
-Qed.
-
-Print Assumptions hj_no_deadlock_with_limit.
-Print Assumptions hj_inv_parked_implies_flag_unset.
-Print Assumptions hj_drain_deadlock_when_abandon_lost_refuted.
